@@ -33,6 +33,12 @@ def gen_calendars(rnd, tier):
     for n in ([1000, 1015, 1023, 1024, 1030, 1100] if tier == 'thorough' else [1015, 1030]):
         long = [b'SUMMARY:' + b'x' * (n - 8) if l.startswith(b'SUMMARY') else l for l in base]
         cals.append(('gen:long%d' % n, b'\n'.join(long) + b'\n'))
+    # an overlong line whose far end reads like a property: a piece that begins there must still be part of the line being dropped
+    inj = []
+    for l in base:
+        if l.startswith(b'SUMMARY'): inj.append(b'DESCRIPTION:' + b'x' * 1040 + b'SUMMARY:/bin/injected ' + b'y' * 9)
+        inj.append(l)
+    cals.append(('gen:longtail', b'\r\n'.join(inj) + b'\r\n'))
     # streams of several calendars (RFC 5545 3.4: objects can be grouped sequentially in one stream; echsd answers a request that
     # arrived in pieces with several reply calendars, echsq reads them as they come), with different things between them
     def cal(meth, evs):
@@ -136,6 +142,10 @@ def partitions(b, rnd, tier):
         ps += [[k, 0] for k in range(1, n)]
     else:
         ps += [[k, 0] for k in sorted(rnd.sample(range(1, n), 250))]
+    # a cut in front of every property name that stands in the middle of a line
+    for i in range(1, n - 8):
+        if b[i:i + 8] == b'SUMMARY:' and b[i - 1] not in (10, 13):
+            ps.append([i, 0]); ps.append([i, 100]); ps.append([i - 1, 1, 0])
     # split pairs around every CR / LF / SP / backslash
     idx = [i for i, c in enumerate(b) if c in (13, 10, 32, 9, 92)]
     if tier != 'thorough' and len(idx) > 120: idx = rnd.sample(idx, 120)
@@ -312,7 +322,7 @@ def run(tier, seed):
     cov = {'states': e1['states'], 'transitions': e1['transitions'], 'traces_validated_against_impl': len(lines),
            'samples': [{'input': groups[nmodel][0], 'partition': inp[refs[-1]][-40:]}, {'input': groups[3][0], 'bytes_hex': groups[3][1].hex()[-60:]}],
            'evaluations': len(lines), 'distinct_nontrivial': len(lines) - len(groups),
-           'rule': 'one case = (byte string, partition into chunks); non-trivial = a partition with >= 2 chunks (the single-chunk run of each string is the reference). Strings: every string of length <= %d over {a : CR LF SP HT backslash} embedded as a SUMMARY value with ALL partitions of the embedded region; repository sample calendars; generated calendars with folds at many columns, CRLF/LF, escapes, ~1 KiB lines, truncations, garbage; partitions: 1-byte chunks, every single split point, split pairs around CR/LF/SP/HT/backslash, 4096-byte chunks, seeded random' % maxlen,
+           'rule': 'one case = (byte string, partition into chunks); non-trivial = a partition with >= 2 chunks (the single-chunk run of each string is the reference). Strings: every string of length <= %d over {a : CR LF SP HT backslash} embedded as a SUMMARY value with ALL partitions of the embedded region; repository sample calendars; generated calendars with folds at many columns, CRLF/LF, escapes, ~1 KiB lines, an overlong line with a property name far inside and a cut in front of it, truncations, garbage; partitions: 1-byte chunks, every single split point, split pairs around CR/LF/SP/HT/backslash, 4096-byte chunks, seeded random' % maxlen,
            'inputs': len(groups), 'model_strings': nmodel, 'cli_runs': len(cjobs), 'cli_mismatching': vc['nbad'], 'mismatching_runs': v['nbad'] + vc['nbad'], 'inputs_with_mismatch': len(seen_groups), 'skipped': v['nskip'],
            'model_drift_runs': sum(x.get('ndrift', 0) for x in v['extra']),
            'sanitizers': 'driver and library built with -fsanitize=address,bounds; chunks are exact-size heap blocks',
